@@ -546,7 +546,10 @@ func (wf *Workflow[I, O]) compile(ctx context.Context, options *graphCompileOpti
 		return nil, wf.g.buildError
 	}
 
-	for _, wb := range wf.workflowBranches {
+	// a branch is handed to the graph once: a Compile that fails later on (or a second Compile) must not
+	// add it again
+	for len(wf.workflowBranches) > 0 {
+		wb := wf.workflowBranches[0]
 		for endNode := range wb.endNodes {
 			if endNode == END {
 				if _, ok := wf.dependencies[END]; !ok {
@@ -562,6 +565,7 @@ func (wf *Workflow[I, O]) compile(ctx context.Context, options *graphCompileOpti
 			}
 		}
 		_ = wf.g.addBranch(wb.fromNodeKey, wb.GraphBranch, true)
+		wf.workflowBranches = wf.workflowBranches[1:]
 	}
 
 	// in declaration order: the type a pass-through node is given depends on which of its edges is
@@ -627,6 +631,9 @@ func (wf *Workflow[I, O]) compile(ctx context.Context, options *graphCompileOpti
 			} else {
 				wf.g.handlerPreNode[n.key] = append([]handlerPair{pair}, wf.g.handlerPreNode[n.key]...)
 			}
+
+			// these values are part of the graph now: the next Compile must not apply them again
+			n.staticValues = make(map[string]any)
 		}
 	}
 
